@@ -1,35 +1,69 @@
-(* C04  The simulator's own execution is always among the model-checked ones.      PARTIAL.
-   The full statement - for every simulator state, draw stream and k, the first k steps of the continued
-   simulation are, up to stuttering, a path of the checker's exploration from the snapshot - needs a simulation
-   between the timed simulator model and the reference semantics that is NOT proved here.  Proved are its
-   ingredients; the statement itself is checked on the implementation by the hand-off inclusion monitor
-   (tools/suites.py suite_handoff: every process-visible state the continued simulation passes through must be
-   among the states the checker evaluated).
-   Ingredients (all machine-checked):
-   - C04_start_ok (= C15_start_ok): from the snapshot of a reachable simulator state the checker's graph is the
-     reference semantics' graph and the search is exhaustive on it (C02, C03).
-   - C04_blocker_fires_first / C04_snapshot_timer_order / C04_snapshot_timer_not_stronger: the timer-order reduction
-     never withholds the timer that real time fires next (timers set in the checker; timers pending at the snapshot
-     among themselves; snapshot timers against later ones).
-   - C04_fate_permitted (= C12_agrees_with_sim): every fate the simulator draws for a send is one of the alternatives
-     the checker explores for that send.
-   - C04_queue_minimum: the simulator always handles the (time, id)-minimum live event.
-   KNOWN FINDINGS: F13 (a corruptible copy withheld behind an identical older copy: witness in corpus/), F10 through
-   the hand-off (stale overridden timer withholds the new one). *)
-From ASV Require Import Base.Util Base.Msg Base.Log Model.Sim Model.McSys Spec.TimeLaws
-     Proofs.TimerOrder Proofs.SnapshotP Proofs.FateAgree Proofs.SimTimeP.
+(* C04  The simulator's own execution is always among the model-checked ones.
+   Proofs: Proofs/HandoffSimBase.v, HandoffSim.v (stage 1), HandoffSim2Base.v, HandoffSim2.v (stage 2), on top of
+   SnapshotP.v (the snapshot), SimTimeP / SimTimerP / SimNetP (simulator invariants), RefWf.v (reference semantics).
+   Statements as Coq prints them: Props/C04.statements.txt (pinned) and Proofs/HandoffSim.statements.txt.
 
+   C04_stage2 (the main theorem): let s0 be ANY reachable simulator state in which every located process is installed,
+   m0 its snapshot (ModelChecker::new) over the reference semantics; then for every run s1 .. sk of simulator steps
+   from s0 - whatever delays within the bounds, drops, duplications and cut links the draws produce - there is ONE
+   path of offered choices of the checker  m0 ->* m1 ->* ... ->* mk  (the checker may take extra duplication steps that
+   change no process) such that si and mi agree on the process-visible state: same nodes, crash flags, skews; per
+   process the same user state, local outbox, pending-timer names and message counters (ProjEq / C04_projeq_spec).
+   Hence every process-visible state the simulation passes through is visited by the checker.
+   Hypotheses (each explicit in the statement):
+     - time_laws + `t - c <= d -> t <= c + d` (snapshot timers carry their remaining delay); draws in [0,1);
+     - handler_agree: the same user code in both engines, independent of clock readings and random draws
+       (the quantifier text of C04);  handler_closed: sends only to known processes;
+     - override-free steps (known finding F10): no set_timer on a name that is pending when the handler runs
+       (SimRunOF; C04_stage2_once: the static form "only set_timer_once");
+     - corruption rate 0 (known finding F13: a corruptible copy is withheld behind an identical older copy);
+     - Routed s0 \/ NoCrash s0: in-flight messages are addressed to the node their destination lives on now (fails
+       only after crash + recover + re-adding a process ON ANOTHER NODE; there snapshot and simulator disagree);
+     - the continuation consists of step calls (no crash / recover / link operation during the continuation).
+   C04_stage1 is the fault-free special case (all rates 0, nothing cut): exactly one checker step per simulator step.
+   C04_*_steps are the same for System::steps(k).  C04_example_*: the hypotheses are satisfiable (crashed node, cut
+   link, duplication rate 1, handlers that re-arm timers after cancelling).
+   Outside the theorem and left to the inclusion monitor of the check: positive corruption rate without identical
+   copies in flight, overriding programs on paths where the override does not matter, and the implementation itself
+   (correspondence).  KNOWN FINDINGS F13 and F10 (through the hand-off) are exactly the excluded cases. *)
+From ASV Require Import Base.Util Base.Msg Base.Log Model.Sim Model.McSys Spec.TimeLaws
+     Proofs.TimerOrder Proofs.SnapshotP Proofs.FateAgree Proofs.SimTimeP
+     Proofs.HandoffSimBase Proofs.HandoffSim Proofs.HandoffSimEx Proofs.HandoffSim2Base Proofs.HandoffSim2 Proofs.HandoffSim2Ex.
+
+Definition C04_stage2 := @HandoffSim2.C04_stage2.
+Definition C04_stage2_once := @HandoffSim2.C04_stage2_once.
+Definition C04_stage2_steps := @HandoffSim2.C04_stage2_steps.
+Definition C04_stage2_one_step := @HandoffSim2.step_sim2.
+Definition C04_stage2_from_snapshot := @HandoffSim2.rel_snapshot2.
+Definition C04_stage1 := @HandoffSim.C04_stage1.
+Definition C04_stage1_steps := @HandoffSim.C04_stage1_steps.
+Definition C04_projeq_spec := @HandoffSim.ProjEq_spec.
+Definition C04_example_stage1 := @HandoffEx.example_steps.
+Definition C04_example_stage1_runs := @HandoffEx.example_three_steps.
+Definition C04_example_stage2 := @Handoff2Ex.example_steps2.
+Definition C04_example_stage2_runs := @Handoff2Ex.example_four_steps.
+(* ingredients, also used by C13 (b) *)
 Definition C04_start_ok := @snapshot_start_ok.
 Definition C04_blocker_fires_first := @blocker_fires_first.
-Definition C04_fired_timer_unblocked := @fired_timer_unblocked.
 Definition C04_snapshot_timer_order := @snapshot_timer_order.
 Definition C04_snapshot_timer_not_stronger := @snapshot_timer_remaining.
 Definition C04_fate_permitted := @sim_fate_permitted.
 Definition C04_queue_minimum := @q_next_some.
 
+Print Assumptions C04_stage2.
+Print Assumptions C04_stage2_once.
+Print Assumptions C04_stage2_steps.
+Print Assumptions C04_stage2_one_step.
+Print Assumptions C04_stage2_from_snapshot.
+Print Assumptions C04_stage1.
+Print Assumptions C04_stage1_steps.
+Print Assumptions C04_projeq_spec.
+Print Assumptions C04_example_stage1.
+Print Assumptions C04_example_stage1_runs.
+Print Assumptions C04_example_stage2.
+Print Assumptions C04_example_stage2_runs.
 Print Assumptions C04_start_ok.
 Print Assumptions C04_blocker_fires_first.
-Print Assumptions C04_fired_timer_unblocked.
 Print Assumptions C04_snapshot_timer_order.
 Print Assumptions C04_snapshot_timer_not_stronger.
 Print Assumptions C04_fate_permitted.
